@@ -1,7 +1,7 @@
 //verif:package github.com/kstenerud/go-concise-encoding/internal/verifh/c29
 //verif:config cap=300
-//verif:bounds the fault point is a solver variable: index k of the Write/Read call that fails (0..31) and whether a write fault is transient (that call only) or persistent, over 6 document templates with symbolic payload; failing reads may first deliver a symbolic number of bytes; the read error is a non-EOF error
-//verif:assume writers obey the io.Writer contract (a short write comes with an error)
+//verif:bounds the real Marshalers/Unmarshalers (iterator and builder sessions included); the fault point is a solver variable: index k of the Write/Read call that fails (0..31) and whether a write fault is transient (that call only) or persistent, over 6 Go values / document templates with symbolic payload; failing reads may first deliver a symbolic number of bytes; the read error is a non-EOF error
+//verif:assume reflect, sync.Map and WaitGroup are the engine's emulation / sequential model; writers obey the io.Writer contract (a short write comes with an error)
 package c29
 
 import (
@@ -13,7 +13,6 @@ import (
 	"github.com/kstenerud/go-concise-encoding/cte"
 	"github.com/kstenerud/go-concise-encoding/internal/verifh"
 	"github.com/kstenerud/go-concise-encoding/internal/verifrt"
-	"github.com/kstenerud/go-concise-encoding/iterator"
 	"github.com/kstenerud/go-concise-encoding/rules"
 )
 
@@ -38,17 +37,41 @@ func (w *faultWriter) Write(p []byte) (int, error) {
 	return len(p), nil
 }
 
-func pickTemplate() {
-	iterator.VerifTemplate = verifrt.Choice("tmpl", iterator.VerifNumTemplates)
-	iterator.VerifPayload = verifrt.U64("v")
+const numTemplates = 6
+
+// sample returns a Go value to marshal and the template to unmarshal it into.
+func sample(k int, v uint64) (value, template interface{}) {
+	switch k {
+	case 0:
+		return v, uint64(0)
+	case 1:
+		return []interface{}{v, nil, true}, []interface{}{}
+	case 2:
+		return map[string]int64{"key": -int64(v >> 1)}, map[string]int64{}
+	case 3:
+		return []uint16{1, 2, uint16(v), 4}, []uint16{}
+	case 4:
+		return []interface{}{1.5, "a longer string than fifteen bytes"}, nil
+	}
+	return struct {
+		A uint64
+		B *string
+	}{A: v}, struct {
+		A uint64
+		B *string
+	}{}
+}
+
+func pickSample() (value, template interface{}) {
+	return sample(verifrt.Choice("tmpl", numTemplates), verifrt.U64("v"))
 }
 
 func Verif_C29_CBEMarshalWriteFault() {
-	pickTemplate()
+	value, _ := pickSample()
 	k := verifrt.U8("failAt")
 	verifrt.Assume(k < 32)
 	w := &faultWriter{k: k, transient: verifrt.Bool("transient")}
-	err := cbe.NewMarshaler(configuration.New()).Marshal(struct{}{}, w)
+	err := cbe.NewMarshaler(configuration.New()).Marshal(value, w)
 	failed := w.calls > w.k
 	if failed {
 		verifrt.Reach("write-failed")
@@ -60,11 +83,11 @@ func Verif_C29_CBEMarshalWriteFault() {
 }
 
 func Verif_C29_CTEMarshalWriteFault() {
-	pickTemplate()
+	value, _ := pickSample()
 	k := verifrt.U8("failAt")
 	verifrt.Assume(k < 32)
 	w := &faultWriter{k: k, transient: verifrt.Bool("transient")}
-	err := cte.NewMarshaler(configuration.New()).Marshal(struct{}{}, w)
+	err := cte.NewMarshaler(configuration.New()).Marshal(value, w)
 	failed := w.calls > w.k
 	if failed {
 		verifrt.Reach("write-failed")
@@ -110,17 +133,37 @@ func (r *faultReader) Read(p []byte) (int, error) {
 	return n, nil
 }
 
-func cbeDoc() []byte {
-	cfg := configuration.New()
+// cbeDoc marshals a sample value with the real CBE marshaler.
+func cbeDoc() (doc []byte, template interface{}) {
+	value, template := pickSample()
 	sink := &verifh.Sink{}
-	enc := cbe.NewEncoder(cfg)
-	enc.PrepareToEncode(sink)
-	iterator.VerifPlay(rules.NewRules(enc, cfg), verifrt.Choice("tmpl", iterator.VerifNumTemplates), verifrt.U64("v"))
-	return sink.Buf
+	if err := cbe.NewMarshaler(configuration.New()).Marshal(value, sink); err != nil {
+		verifrt.Assume(false)
+	}
+	return sink.Buf, template
+}
+
+// The whole unmarshal path (reader, decoder, rules, builder session): a failed
+// read makes Unmarshal return an error, never a value with a nil error.
+func Verif_C29_CBEUnmarshalReadFault() {
+	doc, template := cbeDoc()
+	k := verifrt.U8("failAt")
+	verifrt.Assume(k < 32)
+	rd := &faultReader{data: doc, k: k}
+	var err error
+	panicked := verifh.Try(func() { _, err = cbe.NewUnmarshaler(configuration.New()).Unmarshal(rd, template) })
+	verifrt.Assert(!panicked, "no panic escapes CBE Unmarshal")
+	if rd.hit {
+		verifrt.Reach("read-failed")
+		verifrt.Assert(err != nil, "a failed read makes CBE Unmarshal return an error")
+	} else {
+		verifrt.Reach("no-fault")
+		verifrt.Assert(err == nil, "without a fault CBE Unmarshal succeeds")
+	}
 }
 
 func Verif_C29_CBEDecodeReadFault() {
-	doc := cbeDoc()
+	doc, _ := cbeDoc()
 	k := verifrt.U8("failAt")
 	verifrt.Assume(k < 32)
 	cfg := configuration.New()
